@@ -41,6 +41,9 @@ def consumer(arrival, kind):
         s += [['ITER', 'ch', 1, []], ['D', 1]]
     elif kind == 'get':
         s.append(['TRY', [['GET', 'ch']]])
+    elif kind == 'iterget':
+        # a single await of the channel inside the body of an iteration over the same channel: two subscriptions of one task
+        s.append(['ITER', 'ch', None, [['TRY', [['GET', 'ch']]]]])
     elif kind == 'get2':
         s += [['TRY', [['GET', 'ch']]], ['TRY', [['GET', 'ch']]]]
     return s
@@ -66,9 +69,9 @@ def cases(tier):
     thorough = tier == 'thorough'
     P1 = [[producer('a', a, n, g)] for a in (0, 1) for n in (1, 2) for g in ((0, 1) if n == 2 else (0,))]
     P2 = [[producer('a', a1, n1, 0), producer('b', a2, 1, 0)] for a1 in (0, 1) for n1 in (1, 2) for a2 in (0, 1)]
-    kinds = ('iter', 'slow', 'iter1', 'get', 'get2')
+    kinds = ('iter', 'slow', 'iter1', 'get', 'get2', 'iterget')
     C = [consumer(a, k) for a in (0, 1, 2) for k in kinds]
-    Cs = [consumer(a, k) for a in (0, 1) for k in ('iter', 'slow', 'iter1', 'get')]
+    Cs = [consumer(a, k) for a in (0, 1) for k in ('iter', 'slow', 'iter1', 'get')] + [consumer(0, 'iterget')]
     for close in CLOSES:
         for p in P1 + P2:
             for c in (C if thorough else Cs):
@@ -146,7 +149,8 @@ def channel_model(ctx, program, hit=()):
         # timeliness
         dur = sum(x[1] for x in op[3] if x[0] == 'D')
         ready = log[sub][3] if sub is not None else None
-        for (gi, gt, gmsg), (ei, et, emsg) in zip(got, expected):
+        fixed_body = all(x[0] == 'D' for x in op[3])      # (a body that waits for a message has no fixed duration)
+        for (gi, gt, gmsg), (ei, et, emsg) in zip(got if fixed_body else [], expected):
             want = max(et, ready)
             if gt != want:
                 msgs.append('%s received %r at %r, expected at %r (put at %r, consumer ready at %r)' % (act, gmsg, gt, want, et, ready))
